@@ -108,7 +108,12 @@ func genConfig(t *rapid.T, o cfgOpts) emuConfig {
 	case o.suffixBias:
 		hi := int64(rapid.IntRange(0, int(min64(limit/10000, 99999))).Draw(t, "msin_hi"))
 		var lo int
-		switch rapid.IntRange(0, 5).Draw(t, "suffix_class") {
+		carryK := 0
+		switch rapid.IntRange(0, 6).Draw(t, "suffix_class") {
+		case 6:
+			// decimal carry: the UEs of the run cross a power of ten somewhere in the MSIN (…0999 → …1000)
+			carryK = rapid.IntRange(4, max(4, n-1)).Draw(t, "carry_digits")
+			lo = -rapid.IntRange(1, max(1, o.maxUEs-1)).Draw(t, "below_pow10")
 		case 0:
 			lo = 16 - rapid.IntRange(1, 4).Draw(t, "below16")
 		case 1, 2:
@@ -121,15 +126,35 @@ func genConfig(t *rapid.T, o cfgOpts) emuConfig {
 			lo = rapid.IntRange(0, 9999).Draw(t, "anysuffix")
 		}
 		msin = hi*10000 + int64(lo)
-		if msin > limit {
+		if carryK > 0 {
+			msin = (hi*10000/pow10(carryK))*pow10(carryK) + int64(lo)
+			if msin <= 0 {
+				msin = pow10(carryK) + int64(lo)
+			}
+		}
+		if msin > limit || msin < 0 {
 			msin = limit
 		}
 	default:
-		switch rapid.IntRange(0, 5).Draw(t, "msin_kind") {
+		switch rapid.IntRange(0, 7).Draw(t, "msin_kind") {
 		case 0:
 			msin = 0
 		case 1:
 			msin = limit
+		case 2, 3:
+			// decimal carry: the UEs of the run cross a power of ten somewhere in the MSIN (…0999 → …1000),
+			// half of the time within the three most significant positions
+			k := rapid.IntRange(1, max(1, n-1)).Draw(t, "carry_digits")
+			if rapid.Bool().Draw(t, "carry_high") {
+				k = rapid.IntRange(max(1, n-3), max(1, n-1)).Draw(t, "carry_digits_high")
+			}
+			msin = pow10(k) - int64(rapid.IntRange(1, max(1, o.maxUEs-1)).Draw(t, "below_pow10"))
+			if k < n-1 {
+				msin += pow10(k+1) * rapid.Int64Range(0, pow10(n-k-1)-1).Draw(t, "carry_head")
+			}
+			if msin > limit || msin < 0 {
+				msin = limit
+			}
 		default:
 			msin = rapid.Int64Range(0, limit).Draw(t, "msin")
 		}
